@@ -1215,7 +1215,7 @@ def _eval(e, env, prog=None):
     return TOP
 
 
-def abstract_run(fn, init_env, tracked=None, start=None, call_effect=None, max_states=20000, barrier=()):
+def abstract_run(fn, init_env, tracked=None, start=None, call_effect=None, max_states=20000, barrier=(), effect=None):
     """Explore fn's CFG with a constant environment over `tracked` expression
     strings (default: keys of init_env).  Branches whose condition evaluates
     to a constant follow only the feasible edge; stores to a tracked
@@ -1247,6 +1247,14 @@ def abstract_run(fn, init_env, tracked=None, start=None, call_effect=None, max_s
         b = fn.blocks[bid]
         for ev in b.events:
             visits.append((ev, dict(env)))
+            if effect is not None:
+                upd = effect(ev, env)
+                if upd:
+                    for k2, v2 in upd.items():
+                        if v2 is TOP:
+                            env.pop(k2, None)
+                        else:
+                            env[k2] = v2
             if ev.kind == 'STORE':
                 ls = estr(ev.lhs)
                 if ls in tracked:
